@@ -13,6 +13,7 @@ import (
 	"runtime"
 	"runtime/debug"
 	"sort"
+	"strconv"
 	"strings"
 	"sync/atomic"
 	"syscall"
@@ -182,7 +183,34 @@ func (o lockOp) String() string {
 	if o.Kind == opRace {
 		return "race_all"
 	}
+	if away, holder, wait, ok := o.overlap(); ok {
+		return fmt.Sprintf("acquire_%d||%s_%d@%dms", o.Proc, away, holder, wait)
+	}
 	return fmt.Sprintf("%s_%d", o.Kind, o.Proc)
+}
+
+// An overlap op has Kind "overlap:<away>:<holder>:<wait ms>" and Proc = the contender: the
+// contender's acquire command is issued and, unless its acknowledgement arrives within the
+// wait (an implementation that refuses immediately), the holder is made to go away
+// (release / kill / exit) WHILE that acquire is still in flight; then both acknowledgements
+// are collected. Which of the two happens first inside the implementation is not
+// controlled: the model follows the observed result of the acquire, and the kernel's
+// owner must agree with it.
+func overlapOp(contender int, away string, holder, waitMs int) lockOp {
+	return lockOp{fmt.Sprintf("overlap:%s:%d:%d", away, holder, waitMs), contender}
+}
+
+func (o lockOp) overlap() (away string, holder, waitMs int, ok bool) {
+	if !strings.HasPrefix(o.Kind, "overlap:") {
+		return "", 0, 0, false
+	}
+	f := strings.Split(o.Kind, ":")
+	if len(f) != 4 {
+		return "", 0, 0, false
+	}
+	holder, _ = strconv.Atoi(f[2])
+	waitMs, _ = strconv.Atoi(f[3])
+	return f[1], holder, waitMs, true
 }
 
 // racers lists the processes taking part in a race in state m.
@@ -456,6 +484,7 @@ type lockStep struct {
 	Op       string `json:"op"`
 	Acquired *bool  `json:"acquired,omitempty"`
 	Winners  []int  `json:"race_winners,omitempty"`
+	InFlight *bool  `json:"acquire_in_flight_when_holder_went_away,omitempty"`
 	Err      string `json:"err,omitempty"`
 	Holder   int    `json:"holder_slot"` // slot owning the kernel lock after the op (-1 nobody, -2 unknown PID)
 	Model    string `json:"model"`
@@ -465,6 +494,7 @@ type lockRun struct {
 	Steps      []lockStep
 	Violation  string // first oracle failure ("" = conforms)
 	Undiscipl  bool   // some process held two Lock objects at once
+	Overlapped bool   // the history contains an overlap op
 	TwoBelieve bool   // two live processes had un-released Lock objects at once (only possible off-discipline)
 }
 
@@ -493,6 +523,10 @@ func runLockPath(n, maxObjects int, path []lockOp) (run lockRun, err error) {
 		if op.Kind == opRace {
 			involved = before.racers()
 		}
+		ovAway, ovHolder, ovWait, isOverlap := op.overlap()
+		if isOverlap {
+			involved = []int{op.Proc, ovHolder}
+		}
 		for _, i := range involved {
 			if !started[i] {
 				started[i] = true
@@ -500,6 +534,70 @@ func runLockPath(n, maxObjects int, path []lockOp) (run lockRun, err error) {
 					return run, err
 				}
 			}
+		}
+		if isOverlap {
+			run.Overlapped = true
+			contender := op.Proc
+			if _, err := io.WriteString(w.procs[contender].stdin, "acquire\n"); err != nil {
+				return run, &infraError{fmt.Sprintf("child %d write: %v", contender, err)}
+			}
+			// An implementation that refuses (or grants) at once answers within the wait; one that
+			// waits for the holder is still inside AcquireLock when the wait expires.
+			var ack lockerAck
+			line, ok, timedOut := w.procs[contender].out.next(time.Duration(ovWait) * time.Millisecond)
+			inFlight := timedOut
+			step.InFlight = &inFlight
+			if !timedOut {
+				if !ok {
+					return run, &infraError{fmt.Sprintf("child %d closed its output before acknowledging acquire", contender)}
+				}
+				if err := json.Unmarshal([]byte(line), &ack); err != nil {
+					return run, &infraError{"bad ack " + line}
+				}
+			}
+			// The holder goes away (possibly while the contender's acquire is in flight).
+			awayOp := lockOp{ovAway, ovHolder}
+			switch ovAway {
+			case opRelease:
+				if a, err := w.command(ovHolder, opRelease); err != nil {
+					return run, err
+				} else if strings.HasPrefix(a.Err, "harness:") {
+					return run, &infraError{a.Err}
+				}
+			case opKill:
+				w.procs[ovHolder].cmd.Process.Signal(syscall.SIGKILL)
+				w.reap(ovHolder)
+			case opExit:
+				io.WriteString(w.procs[ovHolder].stdin, "exit\n")
+				w.reap(ovHolder)
+			}
+			if inFlight {
+				a, err := w.ack(contender, "acquire")
+				if err != nil {
+					return run, err
+				}
+				ack = a
+			}
+			got := ack.OK
+			step.Acquired, step.Err = &got, ack.Err
+			if !inFlight {
+				// Answered before the holder was touched: an ordinary acquire against a held lock.
+				// "At any moment at most one process holds the daemon lock".
+				if got && before.K != -1 && int(before.K) != contender {
+					violate("step %d %s: acquire SUCCEEDED while process %d holds the lock (model %s)", si, op, before.K, before.key())
+				}
+			}
+			// Model: the holder is gone; the contender holds the lock iff it was told so (both
+			// answers are legal when the two overlapped). The kernel's owner is compared below:
+			// a contender that was told it acquired must really own the lock.
+			if got && !inFlight && before.K != -1 {
+				m.apply(lockOp{opAcquire, contender}) // refused in the model; violation already recorded
+			}
+			m.apply(awayOp)
+			if got && (inFlight || before.K == -1) {
+				m.apply(lockOp{opAcquire, contender})
+			}
+			step.Model = m.key()
 		}
 		switch op.Kind {
 		case opRace:
@@ -625,7 +723,7 @@ func runLockPath(n, maxObjects int, path []lockOp) (run lockRun, err error) {
 	// Journal oracle (observe_at: "holder journal written by each process while holding
 	// the lock"): on disciplined histories no '+' of one slot may lie between '+' and the
 	// matching '-' / death of another.
-	if run.Violation == "" && !run.Undiscipl {
+	if run.Violation == "" && !run.Undiscipl && !run.Overlapped {
 		if what := checkJournal(w.journal, path, run.Steps); what != "" {
 			violate("%s", what)
 		}
@@ -759,7 +857,7 @@ func TestC28(t *testing.T) {
 	}
 	r.Rule("reference model (alive set, un-released Lock objects per process <= 2, POSIX owner) explored by BFS to closure over ops " +
 		"{acquire,release,releaseold,kill,exit,respawn}_i (thorough: also gc_i, a full garbage collection with finalizers in process i) plus race_all (all idle live processes attempt at the same instant; exactly one must win iff the lock is free); EVERY model transition (state x enabled op) is executed on fresh real processes " +
-		"(shortest path to the state, then the op) calling daemon.AcquireLock/Release; plus a scripted family the state abstraction collapses: for every ordered (i,j,k) and every way j goes away {release,kill,exit}: acquire_j, acquire_i refused, [gc_i], away_j, acquire_i, gc_i, acquire_k refused, j refused, release_i, acquire_k;  after every op the parent reads the kernel's owner with F_GETLK. " +
+		"(shortest path to the state, then the op) calling daemon.AcquireLock/Release; plus a scripted family the state abstraction collapses: for every ordered (i,j,k) and every way j goes away {release,kill,exit}: acquire_j, acquire_i refused, [gc_i], away_j, acquire_i, gc_i, acquire_k refused, j refused, release_i, acquire_k; and an overlap family: acquire_j, then acquire_i issued and (unless it answers within 100/250 ms) the holder j released/killed/exited while that acquire is in flight, both acknowledgements collected, then acquire_k, [respawn_j,] acquire_j - the model follows the observed answer of the overlapped acquire and the kernel's owner must agree;  after every op the parent reads the kernel's owner with F_GETLK. " +
 		"Non-trivial = the executed history contains a race, or a successful acquire followed by a later op other than respawn (contending acquire, release, death); distinct by op sequence")
 	r.Assume("Linux POSIX record locks on a local filesystem (tmpfs/ext4 under $TMPDIR); NFS and Windows LockFileEx are not exercised",
 		"process scheduling is serialised by the parent (one command in flight) except in race_all, where the racers spin to a common wall-clock instant and the kernel arbitrates; which racer wins is not controlled, only that exactly one does",
@@ -792,6 +890,18 @@ func TestC28(t *testing.T) {
 		for i, s := range run.Steps {
 			if (acquired && path[i].Kind != opRespawn) || path[i].Kind == opRace {
 				nontrivial = true
+			}
+			if s.InFlight != nil {
+				cls := "overlap:acquire-answered-before-holder-went-away"
+				if *s.InFlight {
+					cls = "overlap:acquire-in-flight-when-holder-went-away"
+				}
+				if s.Acquired != nil && *s.Acquired {
+					cls += ":ok"
+				} else {
+					cls += ":refused"
+				}
+				l.Outcome(cls)
 			}
 			if (s.Acquired != nil && *s.Acquired) || len(s.Winners) > 0 {
 				acquired = true
@@ -889,9 +999,58 @@ func TestC28(t *testing.T) {
 		}
 	}
 
+	// Overlap family: the holder j releases / is killed / exits WHILE contender i's acquire
+	// command is in flight (issued, not yet acknowledged - only an implementation that waits
+	// for the holder keeps it in flight; one that answers at once degenerates to the sequential
+	// history), then a third process k acquires, then j (respawned if dead) tries again. For
+	// every ordered (j, i, k), every way of going away and every wait before the holder is touched.
+	overlapFamily := func() {
+		const n = 3
+		waits := []int{100, 250}
+		if vr.Thorough() {
+			waits = []int{0, 50, 100, 250, 400}
+		}
+		var paths [][]lockOp
+		for j := 0; j < n; j++ {
+			for i := 0; i < n; i++ {
+				for k := 0; k < n; k++ {
+					if i == j || j == k || i == k {
+						continue
+					}
+					for _, away := range []string{opRelease, opKill, opExit} {
+						for _, wait := range waits {
+							path := []lockOp{{opAcquire, j}, overlapOp(i, away, j, wait), {opAcquire, k}}
+							if away != opRelease {
+								path = append(path, lockOp{opRespawn, j})
+							}
+							path = append(path, lockOp{opAcquire, j})
+							paths = append(paths, path)
+						}
+					}
+				}
+			}
+		}
+		r.Sample(map[string]interface{}{"processes": n, "max_lock_objects": 1, "scripted": pathString(paths[3])})
+		var skipped int64
+		vr.Parallel(len(paths), func(x int) {
+			if time.Now().After(deadline) {
+				atomic.AddInt64(&skipped, 1)
+				return
+			}
+			l := r.Local()
+			defer l.Flush()
+			execute(n, 1, paths[x], l)
+			r.Add("overlap_histories", 1)
+		})
+		if skipped > 0 {
+			capped = append(capped, fmt.Sprintf("%d of %d overlap histories not executed", skipped, len(paths)))
+		}
+	}
+
 	for ui, u := range universes {
 		if ui == 1 {
 			scripted()
+			overlapFamily()
 		}
 		// BFS over the model to closure, remembering the shortest path to every state.
 		type node struct {
